@@ -1270,6 +1270,7 @@ class Context:
 
         # Share globals with VM (don't copy - allows nested eval to modify globals)
         vm.globals = self._globals
+        vm._context = self
 
         # Store current VM for timeout checking in RegExp constructor
         self._current_vm = vm
@@ -1287,6 +1288,7 @@ class Context:
         """
         vm = VM(memory_limit=self.memory_limit, time_limit=self.time_limit)
         vm.globals = self._globals
+        vm._context = self
         if self._current_vm is not None:
             vm.start_time = self._current_vm.start_time
             # Every nested start polls the clock: work made of many short nested
